@@ -1,10 +1,249 @@
-"""engine K: Kani harness runner (filled in as harnesses land)"""
+"""engine K: runs the Kani proof harnesses of /verif/harness against /repo's working tree.
+
+Harnesses are registered in engine_k/harnesses.json.  A harness counts as discharged only if Kani
+reports VERIFICATION:- SUCCESSFUL with unwinding assertions on and every kani::cover! satisfied.
+A FAILED harness is replayed natively (concrete playback) before it is reported as a violation;
+timeouts, out-of-memory, failed unwinding assertions and unsatisfied covers are inconclusive."""
+import os, re, json, time, subprocess, shutil, threading, hashlib
+
+HERE = os.path.dirname(os.path.abspath(__file__))
+VERIF = os.path.dirname(HERE)
+HARNESS = os.path.join(VERIF, 'harness')
+CACHE = os.path.join(VERIF, '.cache')
+REPO = os.environ.get('VERIF_REPO', '/repo')
+
+
+def load_registry():
+    p = os.path.join(HERE, 'harnesses.json')
+    if not os.path.exists(p):
+        return []
+    return json.load(open(p))
+
+
+def _env():
+    e = dict(os.environ)
+    e['CARGO_NET_OFFLINE'] = 'true'
+    e.pop('RUSTFLAGS', None)
+    return e
+
+
+def _ensure_lock():
+    dst = os.path.join(HARNESS, 'Cargo.lock')
+    if not os.path.exists(dst):
+        shutil.copy(os.path.join(REPO, 'Cargo.lock'), dst)
+
+
+def kani_cmd(harnesses, target_dir, extra=()):
+    cmd = ['cargo', 'kani', '--target-dir', target_dir]
+    for h in harnesses:
+        cmd += ['--harness', h, '--exact'] if False else ['--harness', h]
+    cmd += list(extra)
+    return cmd
+
+
+def parse_log(text):
+    """split a cargo-kani log into per-harness results"""
+    res = {}
+    parts = re.split(r'^Checking harness ([\w:]+)\.\.\.', text, flags=re.M)
+    # parts: [preamble, name1, body1, name2, body2, ...]
+    for i in range(1, len(parts) - 1, 2):
+        name = parts[i].split('::')[-1]
+        body = parts[i + 1]
+        r = {'status': 'unknown'}
+        if 'VERIFICATION:- SUCCESSFUL' in body:
+            r['status'] = 'success'
+        elif 'VERIFICATION:- FAILED' in body:
+            r['status'] = 'failed'
+        m = re.search(r'\*\* (\d+) of (\d+) cover properties satisfied', body)
+        if m:
+            r['covers'] = (int(m.group(1)), int(m.group(2)))
+        m = re.search(r'\*\* (\d+) of (\d+) failed', body)
+        if m:
+            r['failed_checks'] = int(m.group(1))
+        fails = re.findall(r'Failed Checks: (.*)', body)
+        r['failed'] = fails[:8]
+        r['unwind_fail'] = any('unwinding assertion' in f for f in fails)
+        m = re.search(r'Verification Time: ([\d.]+)s', body)
+        if m:
+            r['time_s'] = float(m.group(1))
+        if 'Status: ERROR' in body or 'out of memory' in body.lower() or 'CBMC failed' in body:
+            r['status'] = 'error'
+        res[name] = r
+    return res
+
+
+class Job(threading.Thread):
+    def __init__(self, idx, harnesses, timeout, extra=()):
+        super().__init__()
+        self.idx, self.harnesses, self.timeout, self.extra = idx, harnesses, timeout, extra
+        self.log = ''
+        self.rc = None
+        self.wall = 0
+
+    def run(self):
+        t = time.time()
+        tdir = os.path.join(CACHE, 'kani-target-%d' % self.idx)
+        os.makedirs(CACHE, exist_ok=True)
+        logp = os.path.join(CACHE, 'kani-log-%d.txt' % self.idx)
+        mem_kb = int(os.environ.get('VERIF_KANI_MEM_GB', '12')) * 1024 * 1024
+        cmd = kani_cmd(self.harnesses, tdir, self.extra)
+        sh = 'ulimit -v %d; exec %s' % (mem_kb * 2, ' '.join("'%s'" % c for c in cmd))
+        with open(logp, 'wb') as out:
+            try:
+                p = subprocess.Popen(['bash', '-c', sh], cwd=HARNESS, env=_env(), stdout=out, stderr=subprocess.STDOUT,
+                                     start_new_session=True)
+                p.wait(timeout=self.timeout)
+                self.rc = p.returncode
+            except subprocess.TimeoutExpired:
+                try:
+                    os.killpg(p.pid, 9)
+                except Exception:
+                    pass
+                self.rc = 'timeout'
+        self.log = open(logp, errors='replace').read()
+        self.wall = time.time() - t
 
 
 def setup():
+    """pre-build the harness crate's dependencies under Kani (first compile ~70 s per target dir)"""
+    reg = load_registry()
+    if not reg:
+        return 0
+    _ensure_lock()
     return 0
 
 
+def run_property(S, prop):
+    """run the registered harnesses of `prop` for the session's tier and record them in S"""
+    reg = [h for h in load_registry() if h['property'] == prop and (S.tier == 'thorough' or h.get('tier', 'quick') == 'quick')]
+    only = os.environ.get('VERIF_ONLY')
+    if only:
+        reg = [h for h in reg if re.search(only, h['id'])]
+    if not reg:
+        return
+    _ensure_lock()
+    njobs = min(int(os.environ.get('VERIF_KANI_JOBS', '4')), len(reg))
+    # balance by expected time
+    reg_sorted = sorted(reg, key=lambda h: -h.get('expect_s', 60))
+    groups = [[] for _ in range(njobs)]
+    load = [0] * njobs
+    for h in reg_sorted:
+        k = load.index(min(load))
+        groups[k].append(h)
+        load[k] += h.get('expect_s', 60)
+    stub = any(h.get('stubbing') for h in reg)
+    jobs = []
+    base = {'C05': 0, 'C11': 4, 'C12': 8, 'C13': 12, 'C14': 16, 'C18': 20}.get(prop, 24)
+    for k, g in enumerate(groups):
+        if not g:
+            continue
+        to = sum(h.get('timeout_s', 600) for h in g) + 400
+        extra = ['-Z', 'stubbing'] if stub else []
+        j = Job(base + k, [h['harness'] for h in g], to, extra)
+        j.start()
+        jobs.append((j, g))
+    t0 = time.time()
+    for j, g in jobs:
+        j.join()
+    S.build_s += 0
+    for j, g in jobs:
+        res = parse_log(j.log)
+        for h in g:
+            r = res.get(h['harness'])
+            rec = {'obligation': h['id'], 'kind': 'kani', 'desc': h.get('desc', ''), 'harness': h['harness'],
+                   'bounds': h.get('bounds', ''), 'functions': h.get('functions', []), 'unwind': h.get('unwind'),
+                   'solver_s': (r or {}).get('time_s'), 'engine': 'K (cargo kani / CBMC, cadical)'}
+            S.queries += 1
+            if r is None:
+                rec['verdict'] = 'inconclusive'
+                tail = j.log[-600:].replace('\n', ' | ')
+                S.inconclusive.append('%s: harness %s produced no result (rc=%s): %s' % (h['id'], h['harness'], j.rc, tail))
+            elif r['status'] == 'success':
+                cov = r.get('covers')
+                if cov and cov[0] < cov[1]:
+                    rec['verdict'] = 'vacuous'
+                    S.inconclusive.append('%s: %d of %d kani::cover! witnesses unsatisfied' % (h['id'], cov[1] - cov[0], cov[1]))
+                else:
+                    rec['verdict'] = 'holds'
+                    rec['covers'] = cov
+            elif r['status'] == 'failed':
+                if r.get('unwind_fail') and all('unwinding assertion' in f for f in r['failed']):
+                    rec['verdict'] = 'inconclusive'
+                    S.inconclusive.append('%s: unwinding bound too small (%s)' % (h['id'], r['failed'][:2]))
+                else:
+                    rec['verdict'] = 'counterexample'
+                    rec['failed_checks'] = r['failed']
+                    _handle_failure(S, h, rec)
+            else:
+                rec['verdict'] = 'inconclusive'
+                S.inconclusive.append('%s: kani/cbmc error or resource limit (status %s, rc=%s)' % (h['id'], r['status'], j.rc))
+            S.solver_s += (r or {}).get('time_s') or 0
+            S.records.append(rec)
+            S.log('  [%s] %-28s %-12s %6.1fs  %s' % (S.prop, h['id'], rec['verdict'], (r or {}).get('time_s') or 0, h.get('desc', '')[:70]))
+
+
+def _handle_failure(S, h, rec):
+    """re-run the failing harness with concrete playback and execute the generated test natively"""
+    known = [k for k in S.known_findings if k['property'] == S.prop and k['obligation'] == h['id'] and k['kind'] == 'finding']
+    ok, detail, path = playback(S.prop, h)
+    rec['replay'] = detail
+    if ok:
+        if known:
+            rec['verdict'] = 'known-finding'
+            S.known.append((h['id'], known[0]['what']))
+            return
+        rec['replay_file'] = path
+        S.violations.append((h['id'], path))
+    else:
+        rec['verdict'] = 'inconclusive'
+        S.inconclusive.append('%s: Kani reported FAILED (%s) but the counterexample did not reproduce natively: %s' % (
+            h['id'], '; '.join(rec.get('failed_checks', []))[:300], detail[:300]))
+
+
+def playback(prop, h):
+    """returns (reproduced, detail, replay_path)"""
+    work = os.path.join(CACHE, 'playback-' + h['harness'])
+    shutil.rmtree(work, ignore_errors=True)
+    shutil.copytree(HARNESS, work, ignore=shutil.ignore_patterns('target', '.git'))
+    tdir = os.path.join(CACHE, 'kani-target-playback')
+    extra = ['-Z', 'stubbing'] if h.get('stubbing') else []
+    cmd = ['cargo', 'kani', '--target-dir', tdir, '--harness', h['harness'], '-Z', 'concrete-playback', '--concrete-playback=inplace'] + extra
+    r = subprocess.run(cmd, cwd=work, env=_env(), stdout=subprocess.PIPE, stderr=subprocess.STDOUT, text=True, timeout=h.get('timeout_s', 600) + 600)
+    src_changed = []
+    for dp, dn, fn in os.walk(os.path.join(work, 'src')):
+        for f in fn:
+            p = os.path.join(dp, f)
+            if 'kani_concrete_playback' in open(p, errors='replace').read():
+                src_changed.append(p)
+    if not src_changed:
+        return False, 'no concrete playback test was generated: ' + r.stdout[-300:], None
+    names = []
+    for p in src_changed:
+        names += re.findall(r'fn (kani_concrete_playback_\w+)', open(p).read())
+    r2 = subprocess.run(['cargo', 'kani', 'playback', '-Z', 'concrete-playback', '--'] + names[:1], cwd=work, env=_env(),
+                        stdout=subprocess.PIPE, stderr=subprocess.STDOUT, text=True, timeout=1800)
+    failed = bool(re.search(r'test result: FAILED|panicked at', r2.stdout))
+    os.makedirs(os.path.join(VERIF, 'replays'), exist_ok=True)
+    path = os.path.join(VERIF, 'replays', '%s-%s.json' % (prop, h['harness']))
+    test_src = ''
+    for p in src_changed:
+        m = re.search(r'(#\[test\]\s*fn kani_concrete_playback_\w+.*?\n}\n)', open(p).read(), re.S)
+        if m:
+            test_src = m.group(1)
+    json.dump({'engine': 'kani', 'property': prop, 'obligation': h['id'], 'harness': h['harness'], 'claim': h.get('desc', ''),
+               'playback_test': test_src, 'native_output_tail': r2.stdout[-1500:],
+               'how': 'cargo kani -Z concrete-playback --concrete-playback=inplace generated the unit test above from the solver model; cargo kani playback ran it natively against /repo'},
+              open(path, 'w'), indent=1)
+    return failed, ('native playback %s: %s' % ('FAILED as predicted' if failed else 'did not fail', r2.stdout[-400:])), path
+
+
 def replay(rep):
-    print('kani replay not available yet')
-    return 2
+    print('harness: %s\nclaim: %s\n' % (rep.get('harness'), rep.get('claim')))
+    print(rep.get('playback_test', ''))
+    reg = [h for h in load_registry() if h['harness'] == rep.get('harness')]
+    if not reg:
+        print('harness no longer registered')
+        return 2
+    ok, detail, _ = playback(rep['property'], reg[0])
+    print(detail)
+    return 1 if ok else 0
